@@ -145,6 +145,9 @@ def permutations_of(rng, shape, cap):
     for i in range(2, n + 1): total *= i
     if total <= cap:
         return [list(p) for p in itertools.permutations(idx)]
+    if cap == 1:
+        p = idx[:]; rng.shuffle(p)
+        return [p]
     seen, out = set(), []
     out.append(idx[:]); seen.add(tuple(idx))
     out.append(idx[::-1]); seen.add(tuple(idx[::-1]))
@@ -473,6 +476,10 @@ def gen_shapes(ck, quick):
     for n in (1, 2, 3):
         for m in ((1, 2) if quick else (1, 2, 3)):
             for base in acyclic_shapes(n, m):
+                if n == 3 and m == 3:
+                    # 900 shapes: one random persistent mix each (all mixes for the smaller ones)
+                    ex.append(with_flags(base, [rng.random() < 0.5 for _ in range(n)]))
+                    continue
                 for flags in itertools.product([0, 1], repeat=n):
                     ex.append(with_flags(base, flags))
     pop['acyclic_exhaustive_n<=3'] = ex
